@@ -195,3 +195,20 @@ def sync_inventory_equals_output_wiring(combo, block: bytes):
     ensures("binary-sensors-whose-items-exist",
             [s.name for s in f.binary_sensors] == [s[0] for s in GeckoConstants.BINARY_SENSORS if s[1] in acc])
     cover("reached-end", True)
+
+
+@harness(prop="C12", cases="c11_quick", target="geckolib.driver.spastruct:GeckoStructure.build_accessors", name="rebuilding_the_accessors_on_a_reconnect_changes_nothing")
+def rebuilding_the_accessors_on_a_reconnect_changes_nothing(combo, async_class: bool):
+    """the blocking client keeps ONE structure for its whole life and rebuilds the accessors on every (re)connect: the lists the
+    facade scans (outputs, devices, user demands, error keys) are the tables', however often that happened before"""
+    import importlib
+    from geckolib.driver.spastruct import GeckoStructure
+    from geckolib.driver.async_spastruct import GeckoAsyncStructure
+    st = GeckoAsyncStructure(None, None) if async_class else GeckoStructure(None)
+    cfg = importlib.import_module("geckolib.driver.packs.%s-cfg-%d" % (combo["platform"], combo["cfg"])).GeckoConfigStruct(st)
+    log = importlib.import_module("geckolib.driver.packs.%s-log-%d" % (combo["platform"], combo["log"])).GeckoLogStruct(st)
+    for attempt in range(3):
+        st.build_accessors(cfg, log)
+        ensures("lists-are-the-tables'", both(list(st.all_outputs) == list(cfg.output_keys), list(st.all_devices) == list(log.all_device_keys),
+                                             list(st.user_demands) == list(log.user_demand_keys), list(st.error_keys) == list(log.error_keys)))
+        ensures("one-accessor-per-item", len(st.accessors) == len(dict(cfg.accessors, **log.accessors)))
